@@ -152,6 +152,17 @@ def wl_cms(ctx, rng, case):
             neg = rng.random() < 0.4 and can_remove
             k2 = rng.choice(keys)
             (t.remove if neg else t.add)(k2, n2)
+            if can_remove and rng.random() < 0.25:
+                # an argument that went to a limit and BACK: every one of its counters is 0 again while its element total is not
+                # (the counters were pinned in between), and that total may itself be huge
+                t = type(s)(width=width, depth=depth, **extra, **bl.kw_hash(hf))
+                huge = rng.choice([2**31, 2**31 + 5, 2**32, 2**40, 2**62, 2**63 - 2, 2**64 + 1])
+                if rng.random() < 0.5:
+                    t.add(k2, huge), t.remove(k2, I32MAX)
+                else:
+                    t.remove(k2, huge), t.add(k2, -I32MIN)
+                if not any(cms_cells(t)["cells"]) and t.elements_added != 0:
+                    ctx.count("joins_with_an_all_zero_argument_whose_total_is_not_zero")
             if rng.random() < 0.4:
                 t = type(s).frombytes(bytes(t), **extra, **bl.kw_hash(hf))  # the argument is a LOADED copy
                 ctx.count("joins_with_a_loaded_argument")
@@ -346,5 +357,6 @@ PROP = Prop(
                  "counting-Bloom removals are legitimate (amount <= outstanding additions) unless the key's minimum is pinned at the limit",
                  "join: a receiver cell already at a limit may stay pinned or take the saturating sum"],
     required=["cell_comparisons", "cases_reaching_int32_max", "cases_reaching_int32_min", "cases_reaching_uint32_max", "cases_reaching_int64_limit",
-              "cases_saturating_with_coinciding_positions", "removals_refused_at_limit", "joins", "unions_and_intersections", "chained_merges", "non_min_return_checks"],
+              "cases_saturating_with_coinciding_positions", "removals_refused_at_limit", "joins", "unions_and_intersections", "chained_merges", "non_min_return_checks",
+              "joins_with_an_all_zero_argument_whose_total_is_not_zero"],
 )
